@@ -4,7 +4,7 @@ use std::ops::RangeInclusive;
 use chrono::prelude::Datelike;
 use chrono::{Duration, NaiveDate, Weekday};
 
-use opening_hours_syntax::rules::day::{self as ds, Date, Month};
+use opening_hours_syntax::rules::day::{self as ds, Month};
 
 use crate::localization::Localize;
 use crate::opening_hours::{DATE_END, DATE_START};
@@ -356,12 +356,14 @@ impl DateFilter for ds::MonthdayRange {
                     return (start_date..=end_date).contains(&date);
                 }
 
-                if *start == Date::md(29, Month::February) && *end == Date::md(29, Month::February)
-                {
+                if let (ds::Date::Fixed { year: None, month, day }, true) = (start, start == end) {
+                    // A single day, which doesn't exist on some years (eg. "Feb 29", "Apr 31")
                     return is_open_from_intervals(
                         date,
-                        (year - 1..=DATE_END.year())
-                            .filter_map(|y| NaiveDate::from_ymd_opt(y, 2, 29))
+                        (year - 1..=year + 1)
+                            .filter_map(|y| {
+                                NaiveDate::from_ymd_opt(y, (*month).into(), (*day).into())
+                            })
                             .map(|d| start_offset.apply(d)..=end_offset.apply(d)),
                     );
                 }
@@ -440,12 +442,14 @@ impl DateFilter for ds::MonthdayRange {
             } => {
                 let year = date.year();
 
-                if *start == Date::md(29, Month::February) && *end == Date::md(29, Month::February)
-                {
+                if let (ds::Date::Fixed { year: None, month, day }, true) = (start, start == end) {
+                    // A single day, which doesn't exist on some years (eg. "Feb 29", "Apr 31")
                     return Some(next_change_from_intervals(
                         date,
-                        (year - 1..=DATE_END.year())
-                            .filter_map(|y| NaiveDate::from_ymd_opt(y, 2, 29))
+                        (year - 1..=year + 10)
+                            .filter_map(|y| {
+                                NaiveDate::from_ymd_opt(y, (*month).into(), (*day).into())
+                            })
                             .map(|d| start_offset.apply(d)..=end_offset.apply(d)),
                     ));
                 }
